@@ -203,22 +203,28 @@ def VS.withdrawMsg (v : VS) (h d : Nat) : Except Err (VS × Nat) :=
     | .error x => .error x
     | .ok v2 => .ok (v2, c)
 
+/-- hooks before a delegation changes: `BeforeDelegationSharesModified` (existing: withdraw rewards) or
+`BeforeDelegationCreated` (new: end the period) -/
+def VS.delegatePre (v : VS) (h d : Nat) : Except Err (VS × Nat) :=
+  match v.del d with
+  | some _ => v.withdrawRewards h d
+  | none =>
+    match v.incPeriod v.tokens with
+    | .error e => .error e
+    | .ok (v1, _) => .ok (v1, 0)
+
+/-- `AddValidatorTokensAndShares` + `delegation.Shares += newShares` + `SetDelegation` -/
+def VS.issue (v1 : VS) (d amt : Nat) : VS :=
+  let issued := if v1.shares = 0 then amt * ONE else v1.sharesFromTokens amt
+  { v1 with tokens := v1.tokens + amt, shares := v1.shares + issued,
+            del := setAt v1.del d (some ((v1.del d).getD 0 + issued)) }
+
 /-- staking `Delegate` (hooks included); returns coins of rewards paid by the hook -/
 def VS.delegate (v : VS) (h d amt : Nat) : Except Err (VS × Nat) :=
   if v.tokens = 0 ∧ 0 < v.shares then .error .sdk else
-  let pre : Except Err (VS × Nat) :=
-    match v.del d with
-    | some _ => v.withdrawRewards h d                      -- BeforeDelegationSharesModified
-    | none => (v.incPeriod v.tokens).map (fun r => (r.1, 0)) -- BeforeDelegationCreated
-  match pre with
-  | .error x => .error x
-  | .ok (v1, c) =>
-    let issued := if v1.shares = 0 then amt * ONE else v1.sharesFromTokens amt
-    let v2 := { v1 with tokens := v1.tokens + amt, shares := v1.shares + issued,
-                        del := setAt v1.del d (some ((v1.del d).getD 0 + issued)) }
-    match v2.initDelegation h d with                        -- AfterDelegationModified
-    | .error x => .error x
-    | .ok v3 => .ok (v3, c)
+  v.delegatePre h d >>= fun r =>
+  (r.1.issue d amt).initDelegation h d >>= fun v3 =>   -- AfterDelegationModified
+  pure (v3, r.2)
 
 /-- staking `ValidateUnbondAmount` -/
 def VS.validateUnbond (v : VS) (d amt : Nat) : Except Err Nat :=
@@ -229,25 +235,31 @@ def VS.validateUnbond (v : VS) (d amt : Nat) : Except Err Nat :=
     if sh < v.sharesFromTokensTrunc amt then .error .sdk else
     .ok (min (v.sharesFromTokens amt) sh)
 
+/-- the delegation after `rest` shares remain: removed when zero -/
+def VS.setShares (v1 : VS) (d rest : Nat) : VS :=
+  { v1 with del := setAt v1.del d (if rest = 0 then none else some rest) }
+
+/-- `RemoveDelegation`, or `SetDelegation` + `AfterDelegationModified` -/
+def VS.unbondPost (v1 : VS) (h d rest : Nat) : Except Err VS :=
+  if rest = 0 then .ok (v1.setShares d rest) else (v1.setShares d rest).initDelegation h d
+
+/-- `RemoveValidatorTokensAndShares`: returns the tokens issued -/
+def VS.removeTokens (v2 : VS) (shares : Nat) : Except Err (VS × Nat) :=
+  let remaining := v2.shares - shares
+  let issued := if remaining = 0 then v2.tokens else v2.tokensFromShares shares / ONE
+  if v2.tokens < issued then .error .negShares else
+  .ok ({ v2 with tokens := v2.tokens - issued, shares := remaining }, issued)
+
 /-- staking `Unbond` (hooks included): returns (state, tokens returned, reward coins paid) -/
 def VS.unbond (v : VS) (h d shares : Nat) : Except Err (VS × Nat × Nat) :=
   match v.del d with
   | none => .error .sdk
   | some sh =>
-    match v.withdrawRewards h d with                        -- BeforeDelegationSharesModified
-    | .error x => .error x
-    | .ok (v1, c) =>
-      if sh < shares then .error .sdk else
-      let post : Except Err VS :=
-        if sh - shares = 0 then .ok { v1 with del := setAt v1.del d none }     -- RemoveDelegation
-        else ({ v1 with del := setAt v1.del d (some (sh - shares)) } : VS).initDelegation h d
-      match post with
-      | .error x => .error x
-      | .ok v2 =>
-        let remaining := v2.shares - shares
-        let issued := if remaining = 0 then v2.tokens else v2.tokensFromShares shares / ONE
-        if v2.tokens < issued then .error .negShares else
-        .ok ({ v2 with tokens := v2.tokens - issued, shares := remaining }, issued, c)
+    v.withdrawRewards h d >>= fun r =>                       -- BeforeDelegationSharesModified
+    if sh < shares then .error .sdk else
+    r.1.unbondPost h d (sh - shares) >>= fun v2 =>
+    v2.removeTokens shares >>= fun q =>
+    pure (q.1, q.2, r.2)
 
 /-- distribution `AllocateTokensToValidator(ctx, val, amt coins)` -/
 def VS.alloc (v : VS) (amt : Nat) : VS :=
@@ -256,6 +268,16 @@ def VS.alloc (v : VS) (amt : Nat) : VS :=
   { v with commission := v.commission + com, cur := v.cur + (t - com), outstanding := v.outstanding + t,
            allocated := v.allocated + t }
 
+/-- distribution hook `BeforeValidatorSlashed` (`updateValidatorSlashFraction`); errors of the hook are only
+logged by staking `Slash` -/
+def VS.slashHook (v : VS) (h eff : Nat) : VS :=
+  match v.incPeriod v.tokens with
+  | .error _ => v
+  | .ok (v1, newPeriod) =>
+    match v1.incRef newPeriod with
+    | .ok v2 => { v2 with slashes := v2.slashes ++ [⟨h, newPeriod, eff⟩] }
+    | .error _ => { v1 with slashes := v1.slashes ++ [⟨h, newPeriod, eff⟩] }
+
 /-- staking `Slash` at the current height (`infractionHeight = ctx.BlockHeight()`: unbonding delegations and
 redelegations are not scanned) with the distribution hook `BeforeValidatorSlashed` -/
 def VS.slash (v : VS) (h power factor : Nat) : VS :=
@@ -263,12 +285,7 @@ def VS.slash (v : VS) (h power factor : Nat) : VS :=
   let burn := min slashAmount v.tokens
   if burn = 0 then v else
   let eff := min ONE (dQuoRoundUp (burn * ONE) (v.tokens * ONE))
-  let hooked : VS :=
-    match v.incPeriod v.tokens with
-    | .error _ => v
-    | .ok (v1, newPeriod) =>
-      let v2 := match v1.incRef newPeriod with | .ok x => x | .error _ => v1
-      { v2 with slashes := v2.slashes ++ [⟨h, newPeriod, eff⟩] }
+  let hooked := v.slashHook h eff
   { hooked with tokens := hooked.tokens - burn }
 
 def cmpShares (name : String) (a b : Nat) : Bool :=
@@ -278,58 +295,69 @@ def cmpShares (name : String) (a b : Nat) : Bool :=
   else if name == "GTE" then decide (b ≤ a)
   else false
 
+/-- sender side of `handlerTransferShares` ("update from delegate, delete it if shares zero"); `v` is the stale
+validator object read at the start, `fsh` the stale copy of the sender's shares -/
+def VS.xferFrom (c : Cfg) (v v2 : VS) (from_ fsh X : Nat) : Except Err VS :=
+  -- `GetDelegatorStartingInfo` of an absent key yields the zero value, not an error
+  let fsi := (v2.sinfo from_).getD ⟨0, 0, 0⟩
+  if fsh < X then .error .negShares else
+  if fsh - X = 0 then
+    let a : VS := { v2 with del := setAt v2.del from_ none }
+    match (if c.decRefOnRemoval then a.decRef fsi.period else .ok a) with
+    | .error e => .error e
+    | .ok b => .ok (if c.delInfoOnRemoval then { b with sinfo := setAt b.sinfo from_ none } else b)
+  else
+    .ok { v2 with del := setAt v2.del from_ (some (fsh - X)),
+                  sinfo := setAt v2.sinfo from_ (some { fsi with stake := v.tokensFromSharesTrunc (fsh - X) }) }
+
+/-- recipient side ("update to delegate, set starting info if to not delegate before"); `toDel0` is the stale
+copy of the recipient's delegation looked up earlier -/
+def VS.xferTo (c : Cfg) (v v3 : VS) (h to X : Nat) (toDel0 : Option Nat) : Except Err VS :=
+  let base := if c.toLookupBeforeFromWrite then toDel0.getD 0 else (v3.del to).getD 0
+  let tsh := base + X
+  let v4 : VS := { v3 with del := setAt v3.del to (some tsh) }
+  match toDel0 with
+  | none =>
+    let p := v4.period - c.newToPeriodOffset
+    match (if c.incRefForNewTo then v4.incRef p else .ok v4) with
+    | .error e => .error e
+    | .ok v5 => .ok { v5 with sinfo := setAt v5.sinfo to (some ⟨p, v.tokensFromSharesTrunc X, h⟩) }
+  | some _ =>
+    let tsi := (v4.sinfo to).getD ⟨0, 0, 0⟩
+    .ok { v4 with sinfo := setAt v4.sinfo to (some { tsi with stake := v.tokensFromSharesTrunc tsh }) }
+
+/-- recipient lookup ("get to delegation"): new recipient → `IncrementValidatorPeriod(ctx, validator)` with the
+stale validator object, existing recipient → its rewards are withdrawn; returns reward coins paid to `to` -/
+def VS.xferLookup (c : Cfg) (v v1 : VS) (h to : Nat) : Except Err (VS × Nat) :=
+  match v1.del to with
+  | none =>
+    if c.incPeriodForNewTo then
+      match v1.incPeriod v.tokens with
+      | .error e => .error e
+      | .ok (v2, _) => .ok (v2, 0)
+    else .ok (v1, 0)
+  | some _ => if c.withdrawTo then v1.withdrawMsg h to else .ok (v1, 0)
+
+/-- the state-changing part of `handlerTransferShares` (after the guards): withdraw the sender's rewards, look up
+the recipient (the copy is kept, as in the Go code), rewrite the sender's side, rewrite the recipient's side -/
+def VS.xferCore (c : Cfg) (v : VS) (h from_ to fsh X : Nat) : Except Err (VS × Nat × Nat) :=
+  (if c.withdrawFrom then v.withdrawMsg h from_ else .ok (v, 0)) >>= fun r1 =>
+  VS.xferLookup c v r1.1 h to >>= fun r2 =>
+  VS.xferFrom c v r2.1 from_ fsh X >>= fun v3 =>
+  VS.xferTo c v v3 h to X (r1.1.del to) >>= fun v4 =>
+  pure (v4, r1.2, r2.2)
+
 /-- `handlerTransferShares(ctx, evm, valAddr, from, to, shares)`; `recv` = the sender has an incoming redelegation
-at this validator; result: new state, reward coins paid to `from`, reward coins paid to `to` -/
-def VS.transfer (c : Cfg) (v : VS) (h from_ to x : Nat) (recv : Bool) : Except Err (VS × Nat × Nat) :=
-  let X := x * ONE
+at this validator; `X` = `LegacyNewDecFromBigInt(shares)` (whole shares × 10^18); result: new state, reward coins
+paid to `from`, reward coins paid to `to` -/
+def VS.transfer (c : Cfg) (v : VS) (h from_ to X : Nat) (recv : Bool) : Except Err (VS × Nat × Nat) :=
   match v.del from_ with
   | none => .error .noDelegation
   | some fsh =>
     if c.refuseRecvRedel && recv then .error .recvRedel else
     if cmpShares c.sharesCmp fsh X then .error .insufficient else
     if c.selfGuard && from_ == to then .ok (v, 0, 0) else
-    -- withdraw the sender's rewards
-    match (if c.withdrawFrom then v.withdrawMsg h from_ else .ok (v, 0)) with
-    | .error e => .error e
-    | .ok (v1, rf) =>
-      -- look up the recipient's delegation (stale copy kept, as in the Go code)
-      let toDel0 := v1.del to
-      let step2 : Except Err (VS × Nat) :=
-        match toDel0 with
-        | none => if c.incPeriodForNewTo then (v1.incPeriod v.tokens).map (fun r => (r.1, 0)) else .ok (v1, 0)
-        | some _ => if c.withdrawTo then v1.withdrawMsg h to else .ok (v1, 0)
-      match step2 with
-      | .error e => .error e
-      | .ok (v2, rt) =>
-        -- `GetDelegatorStartingInfo` of an absent key yields the zero value, not an error
-        match (v2.sinfo from_).getD ⟨0, 0, 0⟩ with
-        | fsi =>
-          if fsh < X then .error .negShares else
-          let step3 : Except Err VS :=
-            if fsh - X = 0 then
-              let a : VS := { v2 with del := setAt v2.del from_ none }
-              match (if c.decRefOnRemoval then a.decRef fsi.period else .ok a) with
-              | .error e => .error e
-              | .ok b => .ok (if c.delInfoOnRemoval then { b with sinfo := setAt b.sinfo from_ none } else b)
-            else
-              .ok { v2 with del := setAt v2.del from_ (some (fsh - X)),
-                            sinfo := setAt v2.sinfo from_ (some { fsi with stake := v.tokensFromSharesTrunc (fsh - X) }) }
-          match step3 with
-          | .error e => .error e
-          | .ok v3 =>
-            let base := if c.toLookupBeforeFromWrite then toDel0.getD 0 else (v3.del to).getD 0
-            let tsh := base + X
-            let v4 : VS := { v3 with del := setAt v3.del to (some tsh) }
-            match toDel0 with
-            | none =>
-              let p := v4.period - c.newToPeriodOffset
-              match (if c.incRefForNewTo then v4.incRef p else .ok v4) with
-              | .error e => .error e
-              | .ok v5 => .ok ({ v5 with sinfo := setAt v5.sinfo to (some ⟨p, v.tokensFromSharesTrunc X, h⟩) }, rf, rt)
-            | some _ =>
-              match (v4.sinfo to).getD ⟨0, 0, 0⟩ with
-              | tsi =>
-                .ok ({ v4 with sinfo := setAt v4.sinfo to (some { tsi with stake := v.tokensFromSharesTrunc tsh }) }, rf, rt)
+    VS.xferCore c v h from_ to fsh X
 
 -- ---------------------------------------------------------------------------------------------------------------
 -- the chain: several validators, allowances, redelegation / unbonding entries, balances
@@ -384,7 +412,7 @@ def State.okVal (s : State) (v : Nat) : Bool := decide (v < s.nVal)
 def State.transferOp (c : Cfg) (s : State) (from_ to v x : Nat) : Except Err State :=
   if !(s.okAcc from_ && s.okAcc to && s.okVal v) then .error .badArgs else
   if c.sharesPositive && x == 0 then .error .badArgs else
-  match (s.vs v).transfer c s.height from_ to x (s.hasRecvRedel from_ v) with
+  match (s.vs v).transfer c s.height from_ to (x * ONE) (s.hasRecvRedel from_ v) with
   | .error e => .error e
   | .ok (v', rf, rt) => .ok (((s.setVS v v').addGain from_ rf).addGain to rt)
 
